@@ -191,3 +191,61 @@ fn ki7_inflate_terminal() {
     }
     kani::cover!(null_in && n_in == 0 && !null_out);
 }
+
+/// zlib's `inflate_fast` documents the entry assumption `state->bits < 8`: on exit it gives back `bits >> 3` whole bytes to
+/// the input, which are input bytes only if fewer than 8 bits were in the register when it was entered.  `inflatePrime` can
+/// put up to 32 bits there that never came from `next_in`.  The contract stub asserts the entry assumption; the harness body
+/// asserts what breaks without it: `next_in` stays inside the caller's buffer and `total_in` counts what was consumed.
+pub(crate) unsafe fn stub_fast_entry_contract(s: &mut State, _start: usize) {
+    assert!(s.bit_reader.bits_in_buffer() < 8, "inflate_fast entered with whole bytes in the bit register that did not come from the input");
+    // nothing decoded here: the slow path that follows in the caller does the work
+}
+
+fn primed_then_fast_instance(primed_bits: u8) {
+    let input = [0u8; 16];
+    let mut out = [0xEEu8; 300];
+    let mut win = [0u8; 8 + 64];
+    let mut state = typed_state(&mut win, 0, Mode::Len);
+    state.gzip_flags = -1;
+    state.len_table = Table { codes: Codes::Fixed, bits: 9 };
+    state.dist_table = Table { codes: Codes::Fixed, bits: 5 };
+    state.flags.update(Flags::IS_LAST_BLOCK, true);
+    // as left by inflatePrime (twice 16 bits for 32): the end-of-block code (seven 0 bits) and padding, all from the caller
+    state.bit_reader.prime(primed_bits, 0);
+    let mut strm = typed_stream(unsafe { &mut *(&mut state as *mut State) });
+    strm.next_in = input.as_ptr() as *mut u8;
+    strm.avail_in = 16;
+    strm.total_in = 0;
+    strm.next_out = out.as_mut_ptr();
+    strm.avail_out = 300;
+    strm.total_out = 0;
+    let rc = unsafe { inflate(&mut strm, InflateFlush::NoFlush) };
+    assert!(rc == ReturnCode::StreamEnd, "the block ends inside the primed bits");
+    assert!(strm.next_in as usize >= input.as_ptr() as usize && strm.next_in as usize <= input.as_ptr() as usize + 16, "next_in stays inside the caller's buffer");
+    assert!(strm.avail_in <= 16 && strm.total_in as usize == 16 - strm.avail_in as usize);
+    assert!(strm.avail_out == 300 && out[0] == 0xEE);
+    kani::cover!(strm.avail_in == 16);
+    core::mem::forget(strm);
+    core::mem::forget(state);
+}
+
+macro_rules! primed_fast_harness {
+    ($name:ident, $bits:expr) => {
+        #[kani::proof]
+        #[kani::unwind(8)]
+        #[kani::stub(crate::inflate::inftrees::inflate_table, stub_table_unreachable)]
+        #[kani::stub(core::fmt::write, stub_fmt_write)]
+        #[kani::stub(core::panicking::panic_nounwind, stub_pn)]
+        #[kani::stub(core::panicking::panic_nounwind_fmt, stub_pnf)]
+        #[kani::stub(crate::inflate::inflate_fast_help, stub_fast_entry_contract)]
+        #[kani::stub(crate::inflate::writer::Writer::copy_match, stub_copy_match_unreachable)]
+        #[kani::stub(crate::inflate::writer::Writer::extend_from_window, stub_efw_unreachable)]
+        #[kani::stub(<[u16]>::fill, stub_fill_unreachable)]
+        fn $name() {
+            primed_then_fast_instance($bits);
+        }
+    };
+}
+primed_fast_harness!(ki7_inflate_primed_8_then_fast, 8);
+primed_fast_harness!(ki7_inflate_primed_16_then_fast, 16);
+primed_fast_harness!(ki7_inflate_primed_32_then_fast, 32);
